@@ -4,7 +4,7 @@
 // loss, regularisers l1/l2, a scaling mode, 3 parameter vectors per objective, a cluster assignment (with unassigned
 // samples) and strong/weak learner outputs.  The four objectives (linear::function_t, gboost::bias_function_t,
 // gboost::scale_function_t, gboost::grads_function_t) are evaluated by the REAL library under K configurations
-// (dataset pool of 1/2/3/8/16 threads x batch 1/2/7/100/10000 x nothing/inputs/targets/both cached) and every value and
+// (dataset pool of 1/2/16 + two sizes from 3..15 per case threads x batch 1/2/7/100/10000 x nothing/inputs/targets/both cached) and every value and
 // gradient is compared with
 //   (a) the naive definition evaluated by the harness one sample at a time, single-threaded, in long double, from the
 //       rows of the shadow store (documented encoding, missing -> 0 after scaling with the documented formula and the
@@ -913,7 +913,12 @@ void run_case(vf::ctx_t& c)
     std::vector<config_t> configs;
     {
         std::vector<std::pair<size_t, tensor_size_t>> grid;
-        for (const size_t threads : {1U, 2U, 3U, 8U, 16U})
+        // pool sizes: 1, 2, 16 always, plus two sizes drawn from 3..15 per case (every size of the quantifier 1..16 is
+        // reached: reductions over the per-thread accumulators may be wrong for particular counts only)
+        const auto r1 = static_cast<size_t>(rng.integer(3, 15));
+        auto       r2 = static_cast<size_t>(rng.integer(3, 15));
+        r2            = (r2 == r1) ? (r1 == 15U ? 3U : r1 + 1U) : r2;
+        for (const size_t threads : {size_t(1), size_t(2), r1, r2, size_t(16)})
         {
             for (const tensor_size_t batch : {1, 2, 7, 100, 10000})
             {
